@@ -17,6 +17,7 @@
 import SmoothModel.Lin
 import SmoothModel.Group
 import SmoothModel.CSpline
+import SmoothModel.Poly
 
 namespace SplineSM
 
@@ -71,7 +72,7 @@ structure Ker (τ G W : Type) where
   /-- `cspline_eval_vs<K,G>(V.colwise(), kMappedBasisFunction<K>, u, vel, acc)` -/
   cev : List W → τ → G × W × W
   /-- one term of `arclength`: per component `integrate_absolute_polynomial(ua, ub, 3a₃, 2a₂, a₁)`
-      of the monomial coefficients `Bcum.rightCols(K) · Vᵀ` -/
+      (`Poly.integrateAbs`, the model of the C20 unit) of the monomial coefficients `Bcum.rightCols(K) · Vᵀ` -/
   absint : List W → τ → τ → W
 
 structure Seg (τ G W : Type) where
@@ -314,24 +315,8 @@ section Concrete
 open Scalar Lin
 variable {α : Type} [Scalar α]
 
-/-- `integrate_absolute_polynomial(t0, t1, A, B, C)` (polynomial/basis.hpp:427).  The zero locations
-    `mid1`, `mid2` start at `+∞`; `std::clamp(+∞, t0, t1) = t1`, modelled by `none ↦ t1`. -/
-def integrateAbsPoly (t0 t1 A B C : α) : α :=
-  let tiny : α := nat 1 / nat 1000000000
-  let clampT (x : α) : α := if x < t0 then t0 else if t1 < x then t1 else x
-  let mids : Option α × Option α :=
-    if Scalar.abs A < tiny ∧ tiny < Scalar.abs B then
-      (some (clampT (-C / B)), none)
-    else if tiny ≤ Scalar.abs A then
-      let res := B * B / (nat 4 * A * A) - C / A
-      if nat 0 < res then
-        (some (-B / (nat 2 * A) - Scalar.sqrt res), some (-B / (nat 2 * A) + Scalar.sqrt res))
-      else (none, none)
-    else (none, none)
-  let integ (u : α) : α := A * u * u * u / nat 3 + B * u * u / nat 2 + C * u
-  let mid1cl := match mids.1 with | some m => clampT m | none => t1
-  let mid2cl := match mids.2 with | some m => clampT m | none => t1
-  Scalar.abs (integ t1 - integ t0 + nat 2 * integ mid1cl - nat 2 * integ mid2cl)
+/-- the literal `1e-9` of `integrate_absolute_polynomial` -/
+def absThr : α := nat 1 / nat 1000000000
 
 /-- control velocity `j` of a segment (missing entries are 0; the driver checks sizes) -/
 def colOf {n : Nat} (V : List (Vec α n)) (j : Nat) : Vec α n := V.getD j (vzero n)
@@ -346,7 +331,7 @@ def coefAt (L : LieModel α) {K : Nat} (Bcum : Mat α (K + 1) (K + 1)) (V : List
 def absintOf (L : LieModel α) {K : Nat} (Bcum : Mat α (K + 1) (K + 1)) (V : List (Vec α L.dof))
     (ua ub : α) : Vec α L.dof :=
   memoV (.of (fun k =>
-    integrateAbsPoly ua ub (nat 3 * coefAt L Bcum V 3 k) (nat 2 * coefAt L Bcum V 2 k)
+    Poly.integrateAbs absThr ua ub (nat 3 * coefAt L Bcum V 3 k) (nat 2 * coefAt L Bcum V 2 k)
       (coefAt L Bcum V 1 k)))
 
 def cevOf (L : LieModel α) {K : Nat} (Bcum : Mat α (K + 1) (K + 1)) (V : List (Vec α L.dof)) (u : α) :
